@@ -517,6 +517,45 @@ fn cold_start_contention(ctx: &Ctx, rep: &Report) {
     }
 }
 
+/// one (suite, count) point of the holder-sizes check (see `run`)
+fn holder_size_item(rep: &Report, s: usize, n: usize) -> CheckResult {
+    let ck = "holder-sizes";
+    let suite = [SuiteId::Sha256, SuiteId::Shake256][s];
+    with_suite!(suite, CS => {
+        let inp = || json!({"suite": suite.name(), "count": n});
+        let kp = KeyPair::<BBSplus<CS>>::generate(&[7u8; 32], None, None).unwrap();
+        let (sk, pk) = (kp.private_key(), kp.public_key());
+        let msgs: Vec<Vec<u8>> = (0..n).map(|i| format!("m{}", i).into_bytes()).collect();
+        let mut sigb = [0u8; 80];
+        let ok = call(rep, ck, "sign(n messages)", n + 8, inp, || match Signature::<BBSplus<CS>>::sign(Some(&msgs), sk, pk, None) { Ok(x) => { sigb = x.to_bytes(); true } Err(_) => false })?;
+        if ok {
+            // nothing disclosed (U = n), one disclosed, all disclosed
+            for (tag, idx) in [("none", vec![]), ("first", vec![0usize]), ("all", (0..n).collect::<Vec<_>>())] {
+                let mut pb = vec![];
+                let okp = call(rep, ck, &format!("proof_gen(n messages, disclosed: {})", tag), n + 8, inp, || match PoKSignature::<BBSplus<CS>>::proof_gen(pk, &sigb, None, None, Some(&msgs), Some(&idx)) { Ok(p) => { pb = p.to_bytes(); true } Err(_) => false })?;
+                if okp && tag != "all" {
+                    let dm: Vec<Vec<u8>> = idx.iter().map(|&i| msgs[i].clone()).collect();
+                    call(rep, ck, "proof_verify(n messages)", n + 8, inp, || PoKSignature::<BBSplus<CS>>::from_bytes(&pb).map(|p| p.proof_verify(pk, Some(&dm), Some(&idx), None, None).is_ok()).unwrap_or(false))?;
+                }
+            }
+        }
+        // n committed messages, two signer messages
+        let mut cb = vec![];
+        let mut bf = None;
+        let okc = call(rep, ck, "commit(n messages)", n + 8, inp, || match Commitment::<BBSplus<CS>>::commit(Some(&msgs)) { Ok((c, b)) => { cb = c.to_bytes(); bf = Some(b); true } Err(_) => false })?;
+        if okc {
+            let two = vec![b"s0".to_vec(), b"s1".to_vec()];
+            let mut bs = [0u8; 80];
+            let okb = call(rep, ck, "blind_sign(commitment to n messages)", n + 12, inp, || match BlindSignature::<BBSplus<CS>>::blind_sign(sk, pk, Some(&cb), None, Some(&two)) { Ok(x) => { bs = x.to_bytes(); true } Err(_) => false })?;
+            if okb {
+                call(rep, ck, "blind_proof_gen(n committed messages)", n + 12, inp, || PoKSignature::<BBSplus<CS>>::blind_proof_gen(pk, &bs, None, None, Some(&two), Some(&msgs), Some(&[0]), Some(&[]), bf.as_ref()).is_ok())?;
+            }
+        }
+        rep.nontrivial(ck, &json!({"holder-sizes": [s, n]}));
+        Ok(())
+    })
+}
+
 pub fn run(ctx: &Ctx, rep: &Report) -> Meta {
     cold_start_contention(ctx, rep);
     let hs = [honest(SuiteId::Sha256), honest(SuiteId::Shake256)];
@@ -567,6 +606,20 @@ pub fn run(ctx: &Ctx, rep: &Report) -> Meta {
             rep.exhaustive("every interface-identifier length 0..=300 x {ascii, zeros, 0xff} x 2 suites into every public function that takes an api_id / dst".into());
         }
     }
+    // (1c) holder / signer side with large honest message counts: sign, proof_gen with U undisclosed messages,
+    // commit with M committed messages, blind_sign + blind_proof_gen, around the counts at which one call of the
+    // suite's expand_message runs out (8160 octets = 170 scalars of 48 octets for SHA-256, 65535 = 1365 for SHAKE-256)
+    // and around 255 / 256: each returns Ok or Err
+    {
+        let mut sizes: Vec<(usize, usize)> = vec![];
+        for n in [150usize, 165, 166, 168, 169, 170, 171, 172, 254, 255, 256, 257, 340, 341] {
+            sizes.push((0, n));
+        }
+        for n in ctx.tier.pick(vec![169usize, 171, 1361, 1364, 1366], vec![169usize, 171, 255, 256, 680, 683, 1360, 1361, 1362, 1363, 1364, 1365, 1366, 1367, 2731]) {
+            sizes.push((1, n));
+        }
+        par_items(ctx, rep, "holder-sizes", &sizes, |&(s, n)| holder_size_item(rep, s, n));
+    }
     // (2) arbitrary index lists and counts
     run_cases(ctx, rep, "index-lists-and-counts", ctx.tier.pick(6000, 60000), 400, call_strat, |c| {
         let h = &hs[if c.suite == SuiteId::Sha256 { 0 } else { 1 }];
@@ -584,7 +637,7 @@ pub fn run(ctx: &Ctx, rep: &Report) -> Meta {
     }
     Meta {
         rule: "(1) every length 0..=1024 x byte classes {zeros, 0xff, 0xc0-prefixed, 0xc0 every 48, random, honest proof/commitment/pk/signature/blind proof cut or padded (zero and random padding)} into every octet decoder, \
-               deserialize_and_validate_commit, blind_sign, proof_gen, blind_proof_gen; decoded objects handed on to the verifiers; (1b) every interface-identifier length 0..=300 into Generators::create, messages_to_scalar, map_message_to_scalar_as_hash, prepare_parameters, deserialize_and_validate_commit, calculate_blind_challenge, hash_to_scalar; (2) honest artefacts with generated index lists / counts over the whole usize range \
+               deserialize_and_validate_commit, blind_sign, proof_gen, blind_proof_gen; decoded objects handed on to the verifiers; (1b) every interface-identifier length 0..=300 into Generators::create, messages_to_scalar, map_message_to_scalar_as_hash, prepare_parameters, deserialize_and_validate_commit, calculate_blind_challenge, hash_to_scalar; (1c) holder-sizes: sign, proof_gen (nothing / one / all disclosed), proof_verify, commit, blind_sign, blind_proof_gen with 150..341 (SHA-256) and 169..1366 (SHAKE-256; thorough up to 2731) honest messages, around the counts at which one expand_message call runs out (170 / 1365 scalars) and around 255 / 256; (2) honest artefacts with generated index lists / counts over the whole usize range \
                (small, 2^32, 2^63, usize::MAX-7..usize::MAX), sorted or not, with duplicates, mismatched lengths, None spellings, into proof_gen, proof_verify, blind_proof_gen, blind_proof_verify (L), update_signature (index, n), verify, verify_blind_sign, sign, commit; \
                one decoded proof object used for a series of verifier calls with lists of different lengths; (3) mutated honest JSON of every serde type, decoded objects handed on; thorough adds a libFuzzer campaign over a structured target. \
                a cold-start contention phase (all workers calling sign / verify / proof_gen / proof_verify / commit with 3..130 messages at once) and the byte-level entry function of the libFuzzer target run in-process on its seed corpus and on pseudo-random bytes; Oracle: the call returns (Ok or Err) under catch_unwind in a build with overflow checks, within a generator budget of 4*(input units)+16 (hook H1); \
@@ -616,6 +669,11 @@ pub fn replay(ctx: &Ctx, rep: &Report, ck: &str, case: &Value) -> CheckResult {
             let c: JsonCase = serde_json::from_value(case["input"]["case"].clone()).map_err(|e| perr(e.to_string()))?;
             let h = honest(c.suite);
             with_suite!(c.suite, CS => json_case::<CS>(rep, ck, &h, &c))
+        }
+        "holder-sizes" => {
+            let s = if case["input"]["suite"] == "sha256" || case["input"]["suite"] == "Sha256" { 0 } else { 1 };
+            let n = case["input"]["count"].as_u64().ok_or_else(|| perr("count missing".into()))? as usize;
+            holder_size_item(rep, s, n)
         }
         "decoders-every-length" => {
             let suite = if case["input"]["suite"] == "sha256" { SuiteId::Sha256 } else { SuiteId::Shake256 };
